@@ -7,6 +7,8 @@ from .engine import (PyRaise, ReturnSig, BreakSig, ContinueSig, PathPruned, Lemm
                      LOCK_CLASSES)
 from .lib import (Lib, TRUE, FALSE, fsize, sdir, ANCHOR_DIR, TMP_KIND, SHARD_KIND, MUTATING)
 
+py_replace = z3.Function("py_replace", T.S, T.S, T.S, T.S)   # s.replace(x, y), uninterpreted
+py_join = z3.Function("py_join", T.S, T.S, T.S)
 py_int = z3.Function("py_int", T.S, T.I)        # int(s)
 isintlit = z3.Function("isintlit", T.S, T.B)    # int(s) does not raise
 int2str = z3.Function("int2str", T.I, T.S)
@@ -240,6 +242,17 @@ class FullLib(Lib):
             h.f["pos"] = ctx.fresh("pos", T.I)
             ctx.event("write", loc=loc, inplace=True, old=old, new=T.LinesF(mid))
             return NONE
+        if name == "truncate" and "pending_truncate_text" in h.f:
+            self.maybe_fault(it, "truncate", h.f["loc"])
+            loc = h.f["loc"]
+            old = self.fs_get(it, loc)
+            txt = h.f.pop("pending_truncate_text")
+            # a text that is empty is the empty line file; otherwise its lines are whatever the
+            # text parses to
+            new = z3.If(txt == T.EMPTY, T.LinesF(T.NOLINES), T.Data(txt))
+            self.fs_set(it, loc, new)
+            ctx.event("truncate", loc=loc, old=old, new=new)
+            return NONE
         if name == "truncate":
             if "pending_truncate" not in h.f:
                 raise Undecided("truncate without preceding writelines")
@@ -277,6 +290,17 @@ class FullLib(Lib):
             new = T.Data(z3.Concat(T.as_text(st), data.term))
         else:
             s = self.need_str(it, data, "TypeError").term
+            if h.f["mode"] == "r+":
+                if not ctx.implied(h.f["pos"] == 0):
+                    raise Undecided("text write to an r+ handle not at offset 0")
+                # overwrite from offset 0: the new text followed by the tail of the old content
+                # until truncate() removes it
+                tail = ctx.fresh("oldtail", T.S)
+                self.fs_set(it, loc, T.Data(z3.Concat(s, tail)))
+                h.f["pending_truncate_text"] = s
+                h.f["pos"] = ctx.fresh("pos", T.I)
+                ctx.event("write", loc=loc, inplace=True, old=st, new=T.Data(z3.Concat(s, tail)))
+                return VInt(ctx.fresh("nwritten", T.I))
             if h.f["mode"] not in ("w", "a"):
                 raise Undecided("text write to r+ handle")
             # a write of  <identifier> + "\n"  appends one line to a line file
@@ -390,6 +414,9 @@ class FullLib(Lib):
         if isinstance(x, VDyn):
             if it.ctx.implied(x.tag == T_STR):
                 return VStr(x.s)
+            if set(x.tags) <= {T_NONE, T_STR, T_INT}:
+                return VStr(z3.If(x.tag == T_STR, x.s,
+                                  z3.If(x.tag == T_INT, int2str(x.i), z3.StringVal("None"))))
             return VOpaque("str()")
         raise Undecided(f"str({x})")
 
@@ -694,7 +721,7 @@ class FullLib(Lib):
     # methods on values
     # ==========================================================================================
     def method(self, it, obj, name, args, kwargs):
-        if isinstance(obj, (VStr, VDyn)):
+        if isinstance(obj, (VStr, VDyn, VOpaque)):
             return self.str_method(it, obj, name, args)
         if isinstance(obj, VList):
             if name == "append":
@@ -800,7 +827,16 @@ class FullLib(Lib):
             it.raise_("AttributeError")
         raise Undecided(f"method {name} on {obj}")
 
+    def approx(self, it, why):
+        """The path now depends on an over-approximated operation (an uninterpreted stand-in for
+        a library function the engine has no exact model of): a refutation found on it must be
+        confirmed natively, otherwise the run is undecided (never a violation)."""
+        it.ctx.__dict__.setdefault("approx_ops", []).append(why)
+
     def str_method(self, it, obj, name, args):
+        if isinstance(obj, VOpaque):
+            self.approx(it, f"str.{name} on a message string")
+            return VStr(it.ctx.fresh("opaque_str", T.S))
         s = self.need_str(it, obj, "AttributeError").term
         if name == "strip" and not args:
             return VStr(T.strip(s))
@@ -811,7 +847,10 @@ class FullLib(Lib):
             tab = {("-", "_"): T.dash2us, ("-", ""): T.rm_dash, ("_", ""): T.rm_us}
             if (a, b) in tab:
                 return VStr(tab[(a, b)](s))
-            raise Undecided(f"str.replace({a!r}, {b!r})")
+            x = self.need_str(it, args[0], "TypeError").term
+            y = self.need_str(it, args[1], "TypeError").term
+            self.approx(it, "str.replace with a symbolic pattern")
+            return VStr(py_replace(s, x, y))
         if name == "startswith":
             return VBool(z3.PrefixOf(self.need_str(it, args[0], "TypeError").term, s))
         if name == "endswith":
@@ -819,7 +858,17 @@ class FullLib(Lib):
         if name == "encode":
             return VBytes(T.utf8(s))
         if name == "join":
+            seq = args[0]
+            if isinstance(seq, VSymSeq) and seq.what == "lines":
+                self.approx(it, "str.join over the lines of a file")
+                return VStr(py_join(s, T.rawOf(seq.info["m"])))
             raise Undecided("str.join")
+        if name in ("upper", "title", "capitalize", "casefold", "rstrip", "lstrip"):
+            self.approx(it, f"str.{name}")
+            return VStr(z3.Function("py_" + name, T.S, T.S)(s))
+        if name in ("splitlines", "split"):
+            self.approx(it, f"str.{name}")
+            return VSymSeq("lines", m=T.linesOfRaw(s), raw=True)
         raise Undecided(f"str.{name}")
 
     def path_method(self, it, p, name, args, kwargs):
@@ -1250,8 +1299,12 @@ class LoopLib(FullLib):
         ctx = it.ctx
         if isinstance(src, VSymSeq) and src.what == "lines":
             # [l for l in f.readlines() if <pure cond(l)>]  -> filtered multiset
-            if not (isinstance(e.elt, ast.Name) and isinstance(gen.target, ast.Name)
-                    and e.elt.id == gen.target.id):
+            strips = (isinstance(e.elt, ast.Call) and isinstance(e.elt.func, ast.Attribute)
+                      and e.elt.func.attr in ("strip", "rstrip") and not e.elt.args
+                      and isinstance(e.elt.func.value, ast.Name) and isinstance(gen.target, ast.Name)
+                      and e.elt.func.value.id == gen.target.id)
+            if not strips and not (isinstance(e.elt, ast.Name) and isinstance(gen.target, ast.Name)
+                                   and e.elt.id == gen.target.id):
                 raise Undecided("line comprehension that transforms its lines")
             m = src.info["m"]
             x = ctx.fresh("line", T.S)
@@ -1264,7 +1317,7 @@ class LoopLib(FullLib):
                 c = z3.And(True, *[it.truth(it.eval(cond, sub)) for cond in gen.ifs])
             finally:
                 ctx.pure -= 1
-            return VSymSeq("lines", m=_filter_lines(m, x, c))
+            return VSymSeq("lines", m=_filter_lines(m, x, c), stripped=strips)
         if isinstance(src, VSymSeq) and src.what == "listdir":
             # [d / f for f in os.listdir(d) if os.path.isfile(d / f)]
             ok = (isinstance(e.elt, ast.BinOp) and isinstance(e.elt.op, ast.Div)
@@ -1354,6 +1407,16 @@ def _exists_line(m, x, c):
 def _filter_lines(m, x, c):
     """Multiset of the lines x of m that satisfy c(x)."""
     cs = z3.simplify(c)
+    if z3.is_and(cs):
+        # a line of a reference file is a non-empty identifier: "line is not blank" is implied
+        rest = [k for k in cs.children()
+                if not (z3.is_not(k) and _eq_sides(k.arg(0), x) is not None
+                        and z3.is_string_value(_eq_sides(k.arg(0), x))
+                        and _eq_sides(k.arg(0), x).as_string() == "")]
+        if len(rest) == 1:
+            cs = rest[0]
+        elif not rest:
+            return m
     if z3.is_not(cs):
         t = _eq_sides(cs.arg(0), x)
         if t is not None:
